@@ -25,7 +25,7 @@ What the engine does, independent of the property:
 import ast
 import re
 
-from .pyz import KEYWORDS, Unsupported
+from .pyz import Unsupported
 
 
 def u(n):
@@ -105,10 +105,6 @@ class V:
 
 
 class NeedDup(Exception):
-    pass
-
-
-class _NoEffect(Exception):
     pass
 
 
@@ -487,26 +483,21 @@ class Engine:
             self.block(s.body, dict(env_t), lambda e: "")
             self.block(s.orelse, dict(env_e), lambda e: "")
             muts, vis = self.carried(env, self.bound)
-            if not muts:                         # e.g. `if update_params: warn(...)`: no effect
-                noeffect = True
-                raise _NoEffect()
-            tup = muts[0] if len(muts) == 1 else "(%s)" % ", ".join(muts)
-            pat = muts[0] if len(muts) == 1 else "'(%s)" % ", ".join(muts)
             ends = []
+            if muts:
+                tup = muts[0] if len(muts) == 1 else "(%s)" % ", ".join(muts)
+                pat = muts[0] if len(muts) == 1 else "'(%s)" % ", ".join(muts)
 
-            def fin_b(e):
-                ends.append(e)
-                return tup
-            a = self.block(s.body, dict(env_t), fin_b)
-            b = self.block(s.orelse, dict(env_e), fin_b)
-        except _NoEffect:
-            self.failtext.pop()
-            self.bound = saved_bound
-            self.failtext.append(None)           # (popped again by the finally clause)
-            return self.block_after_noeffect(rest, env, fin)
+                def fin_b(e):
+                    ends.append(e)
+                    return tup
+                a = self.block(s.body, dict(env_t), fin_b)
+                b = self.block(s.orelse, dict(env_e), fin_b)
         finally:
             self.failtext.pop()
             self.bound = saved_bound
+        if not muts:                             # e.g. `if update_params: warn(...)`: no effect
+            return self.block(rest, env, fin)
         et, ee = ends
         for n in muts:
             if et.get(vis[n]) != ee.get(vis[n]):
@@ -517,14 +508,6 @@ class Engine:
         self.merge_meta(env, et, ee, s)
         return "let %s :=\n%s in\n%s" % (pat, self.choose(c, paren(a), paren(b)),
                                         self.block(rest, env, fin))
-
-    def block_after_noeffect(self, rest, env, fin):
-        # translated outside the NeedDup guard of if_merge: temporarily drop the guard
-        guard = self.failtext.pop()
-        try:
-            return self.block(rest, env, fin)
-        finally:
-            self.failtext.append(guard)
 
     def merge_meta(self, env, et, ee, s):
         """reconcile '@' entries of the branch environments (subclasses with aliases override)"""
@@ -619,8 +602,8 @@ class Engine:
             tys.append("bool")
         # the loop body becomes a definition of its own (so that the bridge can name it); its
         # parameters are the visible variables it mentions and does not carry
-        import re as _re
-        words = _re.findall(r"[A-Za-z_][A-Za-z0-9_']*", t2)
+
+        words = re.findall(r"[A-Za-z_][A-Za-z0-9_']*", t2)
         free = []                # in order of first occurrence: stable under renaming of locals
         for n in words:
             if n in vis and n not in acc and n not in free and env.get(vis[n]) not in (None, "none"):
